@@ -51,7 +51,7 @@ def dispatch(eng, func, args, kwargs):
         if t.layout != torch.strided and id(t) not in eng.sparse and name not in ("_sparse_coo_tensor_with_dims_and_tensors",):
             pass
     anysym = any(eng.has(t) for t in tens) or any(id(t) in eng.sparse for t in tens) or any(
-        t.is_complex() and eng.key(t) in eng.cstore for t in tens if t.layout == torch.strided)
+        t.is_complex() and eng.key(t) in eng.store for t in tens if t.layout == torch.strided)
 
     # data-dependent extraction to Python
     if name in ("_local_scalar_dense", "is_nonzero", "item") and anysym:
@@ -65,6 +65,8 @@ def dispatch(eng, func, args, kwargs):
     if name in TEST_ONLY and anysym:
         raise UnsupportedOp(f"{name} on symbolic data (tolerance comparison has no R semantics)")
 
+    if name in ("_fft_r2c", "_fft_c2c", "_fft_c2r") and not anysym:
+        anysym = True  # spectra are always tracked lazily (a concrete spectrum could not be multiplied with a symbolic one)
     if name in RNG_OPS:
         out = func(*args, **kwargs)
         if name == "randperm":
@@ -105,15 +107,25 @@ def dispatch(eng, func, args, kwargs):
         if all(o.layout == torch.strided and eng.key(o) in inkeys for o in outs):
             return out  # pure view (or identity) : strides are the semantics
 
+    if name in METADATA_INPLACE:
+        return out
     h = HANDLERS.get(name)
     b = bind(func, args, kwargs)
-    if h is None:
-        if name in PLUMB:
-            res = plumb(eng, func, b)
+    try:
+        if any(t.is_complex() for t in tens if t.layout == torch.strided) and name in ("mul", "mul_"):
+            res = _complex_mul_dispatch(eng, b, func, out)
+        elif h is None:
+            if name in PLUMB:
+                res = plumb(eng, func, b)
+            else:
+                raise UnsupportedOp(str(func))
         else:
-            raise UnsupportedOp(str(func))
-    else:
-        res = h(eng, b, func, out)
+            res = h(eng, b, func, out)
+    except (UnsupportedOp, EngineMismatch, T.UnsupportedTerm, T.NonFinite, IndexError):
+        raise
+    except Exception as e:  # a bug in a handler must never look like a library exception
+        import traceback
+        raise UnsupportedOp(f"engine handler failure in {func}: {type(e).__name__}: {e} :: {traceback.format_exc(limit=3)[-300:]}")
     if res is NotImplemented:
         raise UnsupportedOp(str(func))
     if res is None:
@@ -144,6 +156,29 @@ def dispatch(eng, func, args, kwargs):
             eng.new(outs[0], res)
             check(eng, func, outs[0])
     return out
+
+
+METADATA_INPLACE = {"squeeze_", "unsqueeze_", "transpose_", "t_", "as_strided_", "detach_", "swapaxes_", "swapdims_",
+                    "requires_grad_", "rename_", "_coalesced_"}
+
+
+def _complex_mul_dispatch(eng, b, func, out):
+    from .fft import calloc, chas, complex_mul, cview
+
+    a, o = b["self"], b["other"]
+    if not (chas(eng, a) and chas(eng, o)):
+        raise UnsupportedOp("complex mul with a non-symbolic / real operand")
+    tgt = a if opname(func) == "mul_" else out
+    zre, zim, spec = complex_mul(eng, a, o, tgt)
+    if opname(func) != "mul_":
+        calloc(eng, out)
+    re, im = cview(eng, tgt)
+    re[...] = zre
+    im[...] = zim
+    if spec is not None:
+        N, d = spec
+        eng.spectral[eng.key(tgt)] = (N, tgt.stride(d))
+    return None
 
 
 def count(eng, func):
@@ -354,7 +389,7 @@ def symbolic_index(eng, func, b):
         range_guard(eng, index, n, False, name)
         slices = []
         for i in index:
-            opts = [np.take(src, v, axis=dim) for v in range(n)]
+            opts = [as_obj(np.take(src, v, axis=dim)) for v in range(n)]
             cur = np.empty(opts[0].shape, dtype=object)
             for p in np.ndindex(*opts[0].shape):
                 cur[p] = _sel([o[p] for o in opts], i, n, False)
@@ -1115,8 +1150,14 @@ def _nonzero(eng, b, func, out):
     a = eng.sym(b["self"])
     # decide every cell; the witness then determines the (data-dependent) output shape consistently
     rows = []
+    cut = eng.in_cut_site()
     for p in np.ndindex(*a.shape):
-        if eng.decide(T.to_bool(a[p]), "nonzero"):
+        c = T.to_bool(a[p])
+        if cut is not None and T.is_term(c):
+            eng.assume(c, f"generic-case cut: non-zero in {cut}")
+            eng.cuts.append((cut, "nonzero", T.show(c, 60)))
+            rows.append(p)
+        elif eng.decide(c, "nonzero"):
             rows.append(p)
     r = np.empty((len(rows), a.ndim), dtype=object)
     for i, p in enumerate(rows):
@@ -1138,3 +1179,7 @@ def _diag_embed(eng, b, func, out):
     return plumb(eng, func, b)
 
 
+
+
+from . import sparse as _sparse  # noqa: E402,F401  (registers handlers)
+from . import fft as _fft  # noqa: E402,F401
